@@ -71,6 +71,8 @@ type HarnessRun struct {
 	samples     []map[string]interface{}
 	cuts        int
 	commits     int
+	known       []knownFinding
+	property    string
 	oblLabels   map[string]int
 	maxPaths    int
 	seenViol    map[string]bool
@@ -141,6 +143,14 @@ func (h *HarnessRun) violation(ex *Exec, label, msg string) {
 func (h *HarnessRun) recordViolation(ex *Exec, label, msg string, extra *Term) {
 	v := &Violation{Harness: h.spec.Name, Label: label, Msg: msg, Pos: ex.posStr(), Trace: append([]string{}, ex.trace...)}
 	key := label + "|" + msg + "|" + v.Pos
+	// violations are de-duplicated per known-finding class, so that a violation of the same
+	// assertion that is NOT covered by a recorded finding is still reported
+	for i := range h.known {
+		if h.known[i].matches(h.property, v) {
+			key += fmt.Sprintf("|known%d", i)
+			break
+		}
+	}
 	h.mu.Lock()
 	dup := h.seenViol[key]
 	h.seenViol[key] = true
